@@ -33,6 +33,8 @@ Hypothesis need_prev : entries_need_prev ru = true.
 (* a vote is granted only to a candidate whose log is at least as up to date *)
 Hypothesis vote_sound : forall lli llt mli mlt g, vote_log_ok ru lli llt mli mlt g = true ->
   N.ltb mlt llt || (N.eqb llt mlt && N.ltb mli lli) || (N.eqb llt mlt && N.eqb lli mli) = true.
+(* the application may finalize only what the node has committed *)
+Hypothesis fin_sound : forall h c len, finalize_ok ru h c len = true -> h <= c.
 (* the leader picks a position of the ascending match list that at least a quorum of the values reach *)
 Hypothesis pick_ok : forall len qn, commit_pick ru len qn <= len - qn.
 (* ... and commits it only if the entry there is of its own term *)
@@ -702,7 +704,7 @@ Proof.
     apply K2_nl; cbn; auto; try lia; discriminate.
   - (* GFinalize *)
     unfold valid_id. destruct (N.ltb_spec i (n_nodes cfg)) as [Hi|]; cbn [fst]; [|exact Stay].
-    unfold finalize. destruct (N.leb_spec h (commit (nd_of s i))) as [Hh|].
+    unfold finalize. destruct (finalize_ok ru h (commit (nd_of s i)) (llen (log (nd_of s i)))) eqn:Hfo; [apply fin_sound in Hfo; rename Hfo into Hh|].
     2:{ apply (si_frame s gl a gl' a' i); auto.
         all: try (intros ? ? ? ? ? ? ? []; fail).
         all: try (intros ? ? ? ? ? ? []; fail).
@@ -817,7 +819,7 @@ Proof.
     split; [cbn; lia|right; reflexivity].
   - destruct (N.ltb_spec j (n_nodes cfg)); cbn [fst]; [|exact Stay]. destruct ok; [|exact Stay]. apply U; auto. unfold K3, start_election; cbn; lia.
   - destruct (N.ltb_spec j (n_nodes cfg)); cbn [fst]; [|exact Stay]. apply U; auto.
-    unfold finalize, K3. destruct (N.leb h (commit (nd_of s j))); cbn; lia.
+    unfold finalize, K3. match goal with |- context [if ?c then _ else _] => destruct c end; cbn; lia.
   - destruct (N.ltb_spec j (n_nodes cfg)); cbn [fst]; [|exact Stay]. apply U; auto.
     unfold compact, K3. match goal with |- context [if ?c then _ else _] => destruct c end; cbn; lia.
 Qed.
